@@ -961,7 +961,9 @@ func (m *Machine) chanSend(ch *Chan, v value) {
 		panic(goPanic{m.mkRuntimeErrorPlain("send on closed channel")})
 	}
 	if len(ch.buf) >= ch.cap {
-		panic(pathEnd{"blocked", "send on full channel"})
+		if !(m.runBlockPeer() && len(ch.buf) < ch.cap) { // vrt.OnBlock peer, see vrt_onblock.go
+			panic(pathEnd{"blocked", "send on full channel"})
+		}
 	}
 	old := ch.buf
 	m.trail = append(m.trail, undo{fn: func() { ch.buf = old }})
@@ -981,6 +983,9 @@ func (m *Machine) chanRecv(ch *Chan, zero value) (value, bool) {
 	}
 	if ch.closed {
 		return zero, false
+	}
+	if m.runBlockPeer() && (len(ch.buf) > 0 || ch.closed) { // vrt.OnBlock peer
+		return m.chanRecv(ch, zero)
 	}
 	panic(pathEnd{"blocked", "receive on empty channel"})
 }
@@ -1002,6 +1007,8 @@ func (fr *frame) doSelect(instr *ssa.Select) value {
 	chosen := -1
 	var recv value = nil
 	recvOk := false
+	peerRan := false
+retry:
 	for i, st := range instr.States {
 		ch := fr.get(st.Chan).(*Chan)
 		if ch == nil {
@@ -1026,6 +1033,10 @@ func (fr *frame) doSelect(instr *ssa.Select) value {
 		}
 	}
 	if chosen < 0 && instr.Blocking {
+		if !peerRan && m.runBlockPeer() { // vrt.OnBlock peer
+			peerRan = true
+			goto retry
+		}
 		panic(pathEnd{"blocked", "select with no ready case"})
 	}
 	r := tuple{m.tt.Const(64, uint64(int64(chosen))), m.tt.Bool(recvOk)}
